@@ -7,7 +7,8 @@ hx = S.hx
 
 # theorems added in round 6 (kept here: sqio_common.py is shared with C02 / C07)
 R6_THEOREMS = ["tracker_iff", "tracker_unset_iff", "tracker_sound", "tracker_rejects_former_exceptions", "position_then_read_eq_record", "rewind_then_read_all_eq_parseFasta",
-               "tracker_ignores_where_seebuf_stops", "position_yields_ready_handle", "position_then_read_all_eq_spec", "position_at_record_then_read_all_eq_scan_tail"]
+               "tracker_ignores_where_seebuf_stops", "position_yields_ready_handle", "position_then_read_all_eq_spec", "position_at_record_then_read_all_eq_scan_tail",
+               "position_then_readInfo_readSequence_eq_record", "position_then_windows_eq_record_windows"]
 
 
 def tracker_predicate(data):
@@ -238,6 +239,11 @@ class C04(Prop):
                         divs = [d for d in range(1, L + 1) if L % d == 0] or [1]
                         W = rng.choice([1, max(1, L - 1), max(1, L), L + 1, rng.choice(divs), rng.choice(divs), 2, 3])
                         C = rng.choice([0, 1, max(0, L - 1), L, L + 1, W, max(0, W - 1), W + 1])
+                        if L > 3 and rng.random() < 0.35:
+                            # context LARGER than the window on a sequence with several windows (C > W, L > W): the saved context is
+                            # not full for the first ceil(C/W) windows
+                            W = rng.choice([1, 2, 3, max(1, L // 4)])
+                            C = rng.choice([W + 1, 2 * W, 3 * W + 1, L, 50])
                         nwin = min(70, (L + W - 1) // W if L else 0)
                         if (L + W - 1) // W > 70:
                             W = L // 60 + 1
@@ -250,6 +256,20 @@ class C04(Prop):
                     ops += ["readwin C=0 W=1", "close"]
                 out.append({"name": "boundary%d" % c, "ops": ops, "sticky": 1,
                             "meta": {"kind": kind, "geom": "boundary", "nrec": nrec, "posscan": [r[0] for r in recs_]}})
+                # (c) the forward window series from a record offset (position_then_windows_eq_record_windows), C > W included: own case,
+                # exact comparison with the model + monitor_position only (the session monitors of sqio_common count windows from record 0)
+                ops = ["file ext=fa hex=" + hx(data), "open fmt=fasta abc=text B=4096"] + ["read"] * (nrec + 1) + ["close"]
+                ops.append("open fmt=fasta abc=%s B=%d" % (rng.choice(["text", kind]), bsize()))
+                for k in order[:3]:
+                    L = len(recs_[k][2])
+                    W = rng.choice([1, 2, 3, 7, max(1, L)])
+                    C = rng.choice([0, 1, W + 1, 3 * W + 1])
+                    if (L + W - 1) // W > 60:
+                        W = L // 50 + 1
+                    ops += ["pos off=%d" % recs_[k][0]] + ["readwin C=%d W=%d" % (C, W)] * ((L + W - 1) // W + 1) + ["reuse"]
+                ops.append("close")
+                out.append({"name": "poswin%d" % c, "ops": ops, "sticky": 1,
+                            "meta": {"kind": kind, "geom": "boundary", "nrec": nrec, "posscan": [r[0] for r in recs_], "poswin": True}})
                 continue
             if rng.random() < 0.06:
                 # sequential scan + `geom`: the tracker's final (bpl, rpl) must be what tracker_iff (Sqio/TrackerExact.lean) says for the
@@ -443,17 +463,40 @@ class C04(Prop):
         if "posscan" not in meta:
             return None
         byoff, order, pending, nxt = {}, [], None, None
+        wacc, wref, cur_open = None, None, ""
         first = True
         for op, l in zip(case["ops"], out):
             w = op.split()
+            if w[0] == "open":
+                cur_open = op
             if w[0] == "close":
                 first = False
-                pending = nxt = None
+                pending = nxt = wacc = None
             elif w[0] == "pos":
                 off = int(w[1].split("=")[1])
                 if not l.startswith("ok"):
                     return Failure("monitor", "esl_sqfile_Position(%d) on a record offset failed: %s" % (off, l[:40]))
                 pending, nxt = off, None
+            elif w[0] == "readwin" and not first and (pending is not None or wacc is not None):
+                # forward window series after Position(off): the new parts reassemble the scanned record at off, then eslEOD with its L
+                if pending is not None:
+                    if pending not in byoff:
+                        return Failure("monitor", "generator offset %d is not a record offset of the sequential scan %s" % (pending, order))
+                    wacc, wref, pending = b"", byoff[pending], None
+                r = S.rec(l)
+                if r is None:
+                    return Failure("monitor", "ReadWindow after Position(%d) returned %r" % (wref["roff"], l[:60]))
+                if r["st"] == "eod":
+                    if r["L"] != wref["L"] or len(wacc) != wref["L"]:
+                        return Failure("monitor", "windows after Position(%d): %d residues delivered, eslEOD reports L=%d, the scan has L=%d" % (wref["roff"], len(wacc), r["L"], wref["L"]))
+                    wacc = None
+                else:
+                    sq_ = r.get("seq") or b""
+                    if r["n"] != r["C"] + r["W"] or len(sq_) != r["n"] or r["start"] + r["C"] != len(wacc) + 1 or r["end"] != len(wacc) + r["W"]:
+                        return Failure("monitor", "window after Position(%d): start=%d end=%d C=%d W=%d n=%d after %d residues" % (wref["roff"], r["start"], r["end"], r["C"], r["W"], r["n"], len(wacc)))
+                    wacc += sq_[r["C"]:]
+                    if " abc=text" in cur_open and wref.get("seq") is not None and wacc != wref["seq"][:len(wacc)]:
+                        return Failure("monitor", "windows after Position(%d) deliver other residues than the scan" % wref["roff"])
             elif w[0] in ("read", "readinfo", "readseq"):
                 r = S.rec(l)
                 if first:
@@ -483,6 +526,8 @@ class C04(Prop):
         return None
 
     def monitor(self, ctx, case, out):
+        if (case.get("meta") or {}).get("poswin"):
+            return self.monitor_position(case, out)
         f = S.monitor_c04(case, out) or self.monitor_position(case, out)
         if f or not (case.get("meta") or {}).get("trackscan"):
             return f
